@@ -183,6 +183,11 @@ def main():
     bres = U.run_tasks([("builtin", n, 250 if quick else 6000, chk.seed + 1, variants, None) for n in U.builtin_names()])
     totals = U.collect(bres, chk, props={"C10"})
     chk.count("fam:builtin-boundary-arguments-x-semantics-variants", totals["cases"])
+    # every Integer argument position x every machine-word edge (i64::MIN, 2^63, 2^64 ...): literal-costed
+    # counts / widths / indices are narrowed by hand in costing and implementation
+    eres = U.run_tasks([("builtin-edges", n, 1 if quick else 6, chk.seed + 2, variants, None) for n in U.builtin_names()])
+    etotals = U.collect(eres, chk, props={"C10"})
+    chk.count("fam:builtin-integer-edges", etotals["cases"])
 
     # ---------- terms decoded from mutated flat bytes, then evaluated (shared with C20)
     import c20 as C20
